@@ -94,6 +94,8 @@ def id_taint_rule(run_, pkg):
     arguments, stored or passed on -- never in arithmetic, ordering comparisons, or as a position in a sequence."""
     n_uses = 0
     for qual, fn in pkg.all_functions():
+        if "g2o" in fn.name or "plot" in fn.name or fn.name.startswith("load"):
+            continue      # file and plot output may be arranged by id; chi^2 and the optimizer never go through these functions
         parents = {}
         for node in ast.walk(fn):
             for ch in ast.iter_child_nodes(node):
@@ -146,13 +148,40 @@ def id_taint_rule(run_, pkg):
                 bad = "position in a sequence `%s`" % ast.unparse(par)[:60]
             elif isinstance(par, ast.Call) and isinstance(par.func, ast.Name) and par.func.id in ("sorted", "min", "max", "range", "abs", "sum", "hash") and node in par.args:
                 bad = "numeric use `%s`" % ast.unparse(par)[:60]
+            else:
+                # the body of a `key=` function of sorted / min / max / list.sort: ordering by id
+                up, via = par, node
+                while isinstance(up, (ast.Tuple, ast.List)):
+                    up, via = parents.get(up), up
+                if isinstance(up, ast.Lambda) and up.body is via:
+                    kwd = parents.get(up)
+                    if isinstance(kwd, ast.keyword) and kwd.arg == "key":
+                        bad = "the sort key `%s`" % ast.unparse(parents.get(kwd))[:70]
+                if isinstance(up, ast.Return):
+                    # a named key function:  def by_id(v): return v.id   ...   sorted(xs, key=by_id)
+                    f_ = up
+                    while f_ is not None and not isinstance(f_, ast.FunctionDef):
+                        f_ = parents.get(f_)
+                    if f_ is not None and f_ is not fn:
+                        for c_ in ast.walk(fn):
+                            if isinstance(c_, ast.Call):
+                                for k_ in c_.keywords:
+                                    if k_.arg == "key" and isinstance(k_.value, ast.Name) and k_.value.id == f_.name:
+                                        bad = "the sort key `%s`" % ast.unparse(c_)[:70]
             key = "C08-a/%s/id-use@%s" % (qual, ast.unparse(node)[:40])
             if bad:
                 run_.violation(key, "C08-a-ids-are-names", "a vertex id is used in %s: results depend on how vertices are numbered" % bad,
                                where="%s:%d" % (fn._gs_module, node.lineno))
             else:
                 run_.ok(key, "C08-a-ids-are-names")
-    run_.floor("uses of vertex ids", n_uses, 12)
+        for node in ast.walk(fn):
+            if isinstance(node, ast.keyword) and node.arg == "key" and isinstance(node.value, ast.Call) and \
+                    ast.unparse(node.value.func).endswith("attrgetter") and \
+                    any(isinstance(a, ast.Constant) and a.value in ("id", "vertex_ids") for a in node.value.args):
+                run_.violation("C08-a/%s/id-use@attrgetter" % qual, "C08-a-ids-are-names",
+                               "a vertex id is used as the sort key `%s`: results depend on how vertices are numbered" % ast.unparse(node.value)[:60],
+                               where="%s:%d" % (fn._gs_module, node.value.lineno))
+    run_.floor("uses of vertex ids", n_uses, 8)
 
 
 def is_id_seq(e, tainted):
@@ -260,6 +289,10 @@ def run(run_, pkg, tier):
     perms = [Scenario("order-reversed", ["PoseR2", "PoseSE2", "PoseR2"][::-1], [tuple(2 - k for k in e) for e in BASE_E], fixed=[2]),
              [s for s in SCENARIOS if s.name == "parallel-only"][0], [s for s in SCENARIOS if s.name == "parallel-free"][0],
              [s for s in SCENARIOS if s.name == "fixed-two"][0]]
+    # relabelling: ids are opaque distinct names; every order relation between them is explored, and on each the prelude must fix
+    # the same vertices and the assembly must produce the same system (in list order)
+    perms += [Scenario("relabelled/fix-first", ["PoseR2", "PoseSE2", "PoseR2"], BASE_E, fix_first_pose=True, symbolic_ids=True),
+              Scenario("relabelled/fixed-middle", ["PoseR2", "PoseSE2", "PoseR2"], BASE_E, fixed=[1], symbolic_ids=True)]
     for scn in perms:
         key = "C08-ac/assembly/%s" % scn.name
         if run_.wants(key):
